@@ -107,6 +107,9 @@ mut("c15_private_unseeded_rng", "C15", "any repetition in another process",
 mut("c15_probability_ranges_checked_by_assert", "C15", "the tool run as `python -O`: the range checks of the probabilities are assert statements and vanish",
     [("roberta_generator.py", "    if prob_robot_break <= 0 or prob_robot_break >= 1:\n        raise ValueError(\"The failure probability of the robot must be a float in (0,1)\")\n",
       "    try:\n        assert 0 < prob_robot_break < 1\n    except AssertionError:\n        raise ValueError(\"The failure probability of the robot must be a float in (0,1)\")\n")])
+mut("c16_reader_cache_under_home_keyed_by_size", "C16", "an earlier run on the same path, an edit that keeps the file length, a later run (any process): the cache lives under ~/.cache, not in inputs/ or outputs/",
+    [("conditionalrewards.py", "    with open(file_name, 'r') as file:\n        contents = file.read()\n        dictionary = eval(contents)\n",
+      "    import os, pickle, hashlib\n    cache_dir = os.path.join(os.path.expanduser(\"~\"), \".cache\", \"conditionalrewards\")\n    key = hashlib.sha1((os.path.abspath(file_name) + str(os.path.getsize(file_name))).encode()).hexdigest()\n    cached = os.path.join(cache_dir, key + \".pickle\")\n    try:\n        with open(cached, \"rb\") as fh:\n            return pickle.load(fh)\n    except (OSError, EOFError, pickle.PickleError):\n        pass\n    with open(file_name, 'r') as file:\n        contents = file.read()\n        dictionary = eval(contents)\n        try:\n            os.makedirs(cache_dir, exist_ok=True)\n            with open(cached, \"wb\") as fh:\n                pickle.dump(dictionary, fh)\n        except OSError:\n            pass\n")])
 # ---- C17 -------------------------------------------------------------------
 mut("c17_fix_reverted", "C17", "k in {29, 57, 58}",
     [("roberta_generator.py", "    return str(round(prob*100))\n", "    return str(int(prob*100))\n")])
